@@ -664,13 +664,13 @@ func (g *Gen) applyContract(spec *FuncSpec, c *ssa.CallCommon, st *State) []Val 
 	// a callee whose contract is written for the other arithmetic mode (bit vectors vs mathematical integers):
 	// its clauses cannot be read in this function's mode. Only its frame is used; nothing is assumed about the
 	// results and its preconditions are not checked here (noted as an assumption).
-	crossMode := (spec.Mode == "bv") != g.bv
+	crossMode := spec.Mode != "any" && (spec.Mode == "bv") != g.bv // "mode any": clauses over lengths only, readable in both modes
 	if crossMode {
 		g.note(fmt.Sprintf("call of %s from a function in the other arithmetic mode: only its frame is used (pre/postconditions not related)", spec.Name))
 	}
 	for _, cl := range spec.Requires {
-		if crossMode {
-			break
+		if crossMode && !modeNeutral(cl.E) {
+			continue
 		}
 		pt := env.evalBool(cl.E)
 		preAll = append(preAll, pt)
@@ -1036,6 +1036,30 @@ func specMentionsNow(spec *FuncSpec) bool {
 		if strings.Contains(c.Src, "now") {
 			return true
 		}
+	}
+	return false
+}
+
+// modeNeutral: a clause that only compares lengths, capacities, nil-ness and integer literals reads the same
+// in bit-vector and in mathematical mode (no arithmetic that could wrap, no spec function over bytes).
+func modeNeutral(e Expr) bool {
+	switch n := e.(type) {
+	case EIdent, EInt, EBool, ENil:
+		return true
+	case EUnary:
+		return n.Op == "!" && modeNeutral(n.X)
+	case EBin:
+		switch n.Op {
+		case "&&", "||", "==>", "<==>", "==", "!=", "<", "<=", ">", ">=":
+			return modeNeutral(n.L) && modeNeutral(n.R)
+		}
+		return false
+	case ECall:
+		if (n.Fn == "len" || n.Fn == "cap") && len(n.Args) == 1 {
+			_, isId := n.Args[0].(EIdent)
+			return isId
+		}
+		return false
 	}
 	return false
 }
